@@ -17,6 +17,15 @@ CHECKS = {
  "C10": dict(cat="exploration", technique="validating reference model over seeded API histories with conservation ledger and final drain",
    text="Seeded histories of Add/Read/ReadInflight/Remove/Replace/Init/Close on the memory and redis queue are validated step by step: bound, FIFO, id assignment, expired/oversize never returned, replay after Init, documented drop priority (any member of the demanded class accepted), counters = true contents, every message in exactly one ledger state, blocked Read released by Close/Add.",
    note="trusted: the model (written from the statement and the interface comment), fakeredis; expiry via +-1h offsets, no wall-clock verdicts", ref="§5 C10"),
+ "C03": dict(cat="exploration", technique="wire-level trace monitor on a scripted subscriber (window, identifier, resume, at-least-once invariants) under generated ack/cut scripts",
+   text="A scripted persistent subscriber follows generated acknowledgement and connection-cut scripts against a real broker (memory and redis queues); online monitors on its wire check the in-flight window bound, identifier uniqueness, retransmission order/DUP/ids after every resume, at-least-once and absence of retransmission after confirmed acks; thorough adds a 70000-message identifier wrap-around.",
+   note="trusted: mqttx; the subscriber's outstanding count is a sound lower bound; quiet periods only widen observation; drop paths excluded by configuration", ref="§5 C03"),
+ "C04": dict(cat="exploration", technique="wire-level history monitor: generated PUBLISH/PUBREL/reconnect histories vs exactly-once model, ack order behind PINGREQ barriers",
+   text="Generated and (thorough) exhaustively enumerated packet histories of a publisher are replayed against a real broker; an independent subscriber counts deliveries per unique payload and the ack stream is compared in order with the model; includes cuts between PUBLISH and PUBREC and a concurrent publisher on another session reusing the same ids.",
+   note="trusted: mqttx; sequential handling of one connection's packets (PINGREQ barrier); fakeredis for the redis unack store", ref="§5 C04"),
+ "C11": dict(cat="exploration", technique="reference-model monitor over store histories + wire-level conservation monitor (copies per group sum to 1) attributed by subscription identifiers",
+   text="(a) every shared lookup of the subscription store compared with a reference table after each operation of seeded join/leave histories (mem and redis wrapper); (b) wire scenarios with joins, UNSUBSCRIBE, clean disconnect, abrupt close, take-over, clean-start reconnect, TerminateSession and offline persistent members; each group join carries a unique subscription identifier so every received copy is attributed to its group, and per message and matching group exactly one current member must receive it at min(published, granted) QoS, independently of non-shared subscriptions.",
+   note="trusted: mqttx, refmodel.Match; copies destined to a member whose session ended while it was offline are unobservable and excluded; expiry-based leaving is covered only in thorough", ref="§5 C11"),
 }
 
 def main():
